@@ -6,6 +6,7 @@ import (
 	"io"
 	"testing"
 
+	"github.com/bluenviron/gomavlib/v3/pkg/dialect"
 	"pgregory.net/rapid"
 
 	"verifharness/evid"
@@ -290,6 +291,42 @@ func checkStreamSizes(t *rapid.T, sc *streamCase, rec *evid.Rec, fixedSizes []in
 		}
 		if rec != nil {
 			rec.Class("fault-injected", 1)
+		}
+	}
+	// (v) the transport fails once between two results and then goes on: the same reader delivers the
+	// same results as over a transport that never failed, and each failure is reported once, as itself
+	if t != nil && len(whole.res) > 0 {
+		nf := rapid.IntRange(1, 3).Draw(t, "transient_n")
+		tr := map[int]bool{}
+		for i := 0; i < nf; i++ {
+			j := rapid.IntRange(0, len(whole.res)).Draw(t, "transient_at")
+			if j == 0 {
+				tr[0] = true
+			} else {
+				tr[whole.res[j-1].end] = true
+			}
+		}
+		want := len(tr)
+		cr := &chunkReader{data: data, sizes: sizes, failAt: -1, transient: tr}
+		var drw *dialect.ReadWriter
+		if sc.di != nil {
+			drw = sc.di.rw
+		}
+		res, terr, herr := readAll(cr, drw, keyOf(sc.key), len(data)+8)
+		if herr != nil {
+			return fmt.Errorf("transient transport errors: %v", herr)
+		}
+		if terr != io.EOF {
+			return fmt.Errorf("after %d transient transport errors between results the reader ended with %v, want io.EOF at the end of the stream", want, terr)
+		}
+		if cr.fired != want {
+			return fmt.Errorf("BROKEN: %d of %d transient errors fired", cr.fired, want)
+		}
+		if err := sameResults(whole.res, res); err != nil {
+			return fmt.Errorf("a transport error between two results, after which the transport went on, changed what the same reader delivers: %v", err)
+		}
+		if rec != nil {
+			rec.Class("transport-recovers-after-error-between-results", 1)
 		}
 	}
 	// classification
